@@ -1,4 +1,4 @@
-//! Signatures only: `InFlightServiceImpl` in inflight.rs is compiled, never executed by a harness.
+//! `Service`/`ServiceCtx`/`Pipeline` with the call/ready protocol of ntex-service 4.6 (ready, then call), without the waiter bookkeeping. Used by the C12 service-level harnesses (ct_gate_*).
 use std::{marker::PhantomData, task::Context};
 #[allow(async_fn_in_trait)]
 pub trait Service<Req> {
@@ -24,12 +24,40 @@ impl<'a, S: ?Sized> ServiceCtx<'a, S> {
     {
         svc.ready(ServiceCtx(PhantomData)).await
     }
+    /// as in ntex-service 4.6: wait for readiness, then call
     pub async fn call<T, R>(&self, svc: &'a T, req: R) -> Result<T::Response, T::Error>
     where
         T: Service<R>,
         R: 'a,
     {
+        self.ready(svc).await?;
         svc.call(req, ServiceCtx(PhantomData)).await
+    }
+}
+
+/// the two entry points of ntex_service::Pipeline that the C12 service-level harnesses use
+/// (same names and signatures as ntex-service 4.6; no waiter bookkeeping: one caller at a time)
+pub struct Pipeline<S> {
+    svc: S,
+}
+impl<S> Pipeline<S> {
+    pub fn new(svc: S) -> Self {
+        Pipeline { svc }
+    }
+    pub fn get_ref(&self) -> &S {
+        &self.svc
+    }
+    pub async fn ready<R>(&self) -> Result<(), S::Error>
+    where
+        S: Service<R>,
+    {
+        ServiceCtx::<'_, S>::new().ready(&self.svc).await
+    }
+    pub async fn call<R>(&self, req: R) -> Result<S::Response, S::Error>
+    where
+        S: Service<R>,
+    {
+        ServiceCtx::<'_, S>::new().call(&self.svc, req).await
     }
 }
 #[macro_export]
